@@ -5,4 +5,4 @@ From Coq Require Import ZArith.
 From Verif.C05 Require Import Extracted Model.
 (* the shared OCaml prelude (lib/prelude_zn.ml) mentions the constructors of Z *)
 Definition c05_z_anchor : Z := Z0.
-Extraction "model_ml.ml" check check_trees correct readable nodup_keys lookup fetched missing_packs c05_z_anchor.
+Extraction "model_ml.ml" check check_trees correct readable nodup_keys lookup fetched missing_packs rlookup restore_opens subset_selects c05_z_anchor.
